@@ -167,9 +167,7 @@ def _get_aliases(result_types: dict, package_name: str) -> dict[str, set[str]]:
                     ):
                         fullname = key.node.target.type.fullname
                     elif isinstance(type_value, mypy_types.CallableType):
-                        bound_args = type_value.bound_args
-                        if bound_args and hasattr(bound_args[0], "type"):
-                            fullname = bound_args[0].type.fullname  # type: ignore[union-attr]
+                        fullname = _get_bound_type_fullname(type_value)
                     elif hasattr(key, "node") and isinstance(key.node, mypy_nodes.Var):
                         fullname = key.node.fullname
 
@@ -186,8 +184,8 @@ def _get_aliases(result_types: dict, package_name: str) -> dict[str, set[str]]:
                     continue
 
             if in_package:
-                if isinstance(type_value, mypy_types.CallableType) and hasattr(type_value.bound_args[0], "type"):
-                    fullname = type_value.bound_args[0].type.fullname  # type: ignore[union-attr]
+                if isinstance(type_value, mypy_types.CallableType) and _get_bound_type_fullname(type_value):
+                    fullname = _get_bound_type_fullname(type_value)
                 elif isinstance(type_value, mypy_types.Instance):
                     fullname = type_value.type.fullname
                 elif isinstance(key, mypy_nodes.TypeVarExpr):
@@ -200,3 +198,17 @@ def _get_aliases(result_types: dict, package_name: str) -> dict[str, set[str]]:
                 aliases[name].add(fullname)
 
     return aliases
+
+
+def _get_bound_type_fullname(callable_type: mypy_types.CallableType) -> str:
+    """Get the full name of the class a callable is bound to (e.g. the class of a constructor call)."""
+    # Mypy versions before 1.16 stored the bound self type in the "bound_args" attribute
+    bound_args = getattr(callable_type, "bound_args", None)
+    if bound_args:
+        bound_type = getattr(bound_args[0], "type", None)
+        return bound_type.fullname if bound_type is not None else ""
+
+    # Newer mypy versions removed "bound_args". For class objects we can still get the class from the callable.
+    if callable_type.is_type_obj():
+        return callable_type.type_object().fullname
+    return ""
